@@ -1002,6 +1002,9 @@ impl ConnectBuilder {
             if self.will_topic_buf.is_none() || self.will_payload_buf.is_none() {
                 return Err(MqttError::MalformedPacket);
             }
+        } else if self.will_props.as_ref().is_some_and(|p| !p.is_empty()) {
+            // Will properties without a will message would never be serialised
+            return Err(MqttError::MalformedPacket);
         }
 
         if let Some(ref props) = self.props {
